@@ -495,6 +495,26 @@ def rule_shared_state(ctx, ix):
                         ctx.ok("C14.shared-state", key + " [single item store, atomic under the GIL]")
                     else:
                         ctx.fail("C14.shared-state", key, "module-level container mutated from a function: check-then-act on it is a race between concurrent evaluations")
+    # process-global interpreter / library state changed from a function of the package: a save-change-restore of such a
+    # setting in one thread is seen (and undone) under the feet of every other thread
+    PROCESS_GLOBAL = re.compile(
+        r"^(sys\.(setrecursionlimit|setswitchinterval|settrace|setprofile|set_int_max_str_digits)|os\.(chdir|umask|putenv|unsetenv)|"
+        r"locale\.setlocale|signal\.signal|random\.seed|warnings\.(simplefilter|filterwarnings|resetwarnings)|threading\.(settrace|setprofile)|"
+        r"gc\.(disable|enable|set_threshold|freeze)|decimal\.setcontext|faulthandler\.\w+|"
+        r"(llvm|llvmlite\.binding)\.(set_option|initialize\w*|shutdown))$"
+    )
+    for q, f in ix.funcs.items():
+        rel = f"{ix.rel(f.module)}:{q.split(f.module + '.', 1)[-1]}"
+        for n in ast.walk(f.node):
+            if isinstance(n, ast.Call) and PROCESS_GLOBAL.match(u(n.func)):
+                ctx.instance("C14.shared-state")
+                ctx.fail("C14.shared-state", f"{rel}:{u(n.func)}", f"process-global state is changed from a function ({u(n)[:60]}): concurrent evaluations see and undo each other's setting")
+            if isinstance(n, (ast.Assign, ast.AugAssign, ast.Delete)):
+                tg = n.targets if isinstance(n, (ast.Assign, ast.Delete)) else [n.target]
+                for t in tg:
+                    if isinstance(t, ast.Subscript) and u(t.value) == "os.environ":
+                        ctx.instance("C14.shared-state")
+                        ctx.fail("C14.shared-state", f"{rel}:os.environ[...]", "the process environment is modified from a function")
     # check-then-insert caches: `if key not in X: X[key] = ...` on module-level containers is covered above.
     # lru_cache is the only cache
     ctx.instance("C14.shared-state")
